@@ -314,6 +314,10 @@ func (w *xw) assertion(a *LAssertion, st nsStyle, standalone bool) {
 		w.nl()
 		w.textEl(A+"Issuer", nil, nil, *a.Issuer)
 	}
+	if a.ForeignIssuer != nil {
+		w.nl()
+		w.textEl("fi:Issuer", []attr{{"xmlns:fi", "urn:example:not-saml"}}, nil, *a.ForeignIssuer)
+	}
 	if a.Sign != nil {
 		w.b.WriteString(SigSlot(a.ID))
 	}
@@ -543,6 +547,10 @@ func RenderMessage(m *LResponse, l Layout) string {
 	if m.Issuer != nil {
 		w.nl()
 		w.textEl(A+"Issuer", st.aSubtreeNS, nil, *m.Issuer)
+	}
+	if m.ForeignIssuer != nil {
+		w.nl()
+		w.textEl("fi:Issuer", []attr{{"xmlns:fi", "urn:example:not-saml"}}, nil, *m.ForeignIssuer)
 	}
 	if m.Sign != nil {
 		w.b.WriteString(SigSlot(m.ID))
